@@ -708,15 +708,27 @@ func TestVerifC20(t *testing.T) {
 			// caught up = an event published now comes through (delivery to one subscriber is first-in first-out, so
 			// everything queued for it before has arrived by then); decided by that order, not by a pause in the flow -
 			// after minutes of a closed window the flow may take seconds to restart
-			caughtUp := false
-			for k := 0; k < 1200 && !caughtUp; k++ {
+			// (If no marker comes through AND nothing at all has arrived for 30 s on the open connection, the backlog
+			// is over as well - a daemon that has silently stopped serving this subscriber looks like that - and the
+			// six certificates below decide.  A backlog that is still trickling in is neither: not judged.)
+			caughtUp, silent := false, 0
+			lastN := s.received()
+			for k := 0; k < 2400 && !caughtUp && silent < 600; k++ {
 				name := fmt.Sprintf("caught-up-%d-%d", nSubs, k)
 				verifPublishSentinel(name)
 				caughtUp = s.waitEvent(func(e c20Event) bool { return e.Type == "Auth" && e.AuthType == "verif-sentinel" && e.Username == name }, 50*time.Millisecond)
+				if n := s.received(); n != lastN {
+					lastN, silent = n, 0
+				} else {
+					silent++
+				}
+			}
+			if !caughtUp && silent < 600 {
+				rep.Inconc("the stalled subscriber was still receiving its backlog 120 s after it started reading again (subscribers=%d): recovery not judged", nSubs)
+				continue
 			}
 			if !caughtUp {
-				rep.Inconc("the stalled subscriber did not catch up within 60 s of reading again (subscribers=%d): recovery not judged", nSubs)
-				continue
+				rep.Count("stalled_subscriber_went_silent", 1)
 			}
 			got := 0
 			s.mu.Lock()
